@@ -2,6 +2,7 @@ CONSTANTS
   Good <- MCGoodQuick
   Bad = {}
   MaxOps = 4
+  WithGet = FALSE
 INIT Init
 NEXT Next
 INVARIANTS BatchEq Idempotent NamesUnique Export
